@@ -64,6 +64,9 @@ const (
 	opUToF // unsigned bv -> fp (RNE)
 	opFToS // fp -> signed bv64, amd64 semantics (out of range => MinInt64)
 	opBitsToF
+	opFTrunc
+	opFFloor
+	opFCeil
 	opFToBits // NaN canonicalised to 0x7FF8000000000001 like z3's to_ieee_bv is unspecified; see print
 )
 
@@ -76,6 +79,7 @@ var opNames = map[Op]string{
 	opFAdd: "fp.add RNE", opFSub: "fp.sub RNE", opFMul: "fp.mul RNE", opFDiv: "fp.div RNE",
 	opFNeg: "fp.neg", opFAbs: "fp.abs", opFLt: "fp.lt", opFLe: "fp.leq", opFEq: "fp.eq",
 	opFIsNaN: "fp.isNaN", opFIsInf: "fp.isInfinite",
+	opFTrunc: "fp.roundToIntegral RTZ", opFFloor: "fp.roundToIntegral RTN", opFCeil: "fp.roundToIntegral RTP",
 }
 
 type Term struct {
@@ -557,6 +561,12 @@ func evalOp(op Op, rw, aw uint8, a []uint64, cval uint64) uint64 {
 		return b2u(math.Float64frombits(a[0]) <= math.Float64frombits(a[1]))
 	case opFEq:
 		return b2u(math.Float64frombits(a[0]) == math.Float64frombits(a[1]))
+	case opFTrunc:
+		return math.Float64bits(math.Trunc(math.Float64frombits(a[0])))
+	case opFFloor:
+		return math.Float64bits(math.Floor(math.Float64frombits(a[0])))
+	case opFCeil:
+		return math.Float64bits(math.Ceil(math.Float64frombits(a[0])))
 	case opFIsNaN:
 		f := math.Float64frombits(a[0])
 		return b2u(f != f)
